@@ -490,23 +490,6 @@ fn run_l1_at(case: &Case, i: usize, out: &mut Outcome) {
 
 // ------------------------------------------------------------------------------------------ L2
 
-fn bcf_record_offsets(raw: &[u8]) -> Vec<usize> {
-    // magic(5) l_text(4) text, then records: l_shared(4) l_indiv(4) data
-    let mut v = vec![];
-    if raw.len() < 9 {
-        return v;
-    }
-    let l_text = u32::from_le_bytes([raw[5], raw[6], raw[7], raw[8]]) as usize;
-    let mut off = 9 + l_text;
-    while off + 8 <= raw.len() {
-        v.push(off);
-        let ls = u32::from_le_bytes([raw[off], raw[off + 1], raw[off + 2], raw[off + 3]]) as usize;
-        let li = u32::from_le_bytes([raw[off + 4], raw[off + 5], raw[off + 6], raw[off + 7]]) as usize;
-        off += 8 + ls + li;
-    }
-    v
-}
-
 /// builds the input file with the fault at record i; returns (bytes, optional shim plan, soft)
 fn build_l2_input(case: &Case, i: usize) -> Option<(Vec<u8>, Option<Plan>)> {
     let cs = &case.callset;
@@ -577,7 +560,7 @@ fn build_l2_input(case: &Case, i: usize) -> Option<(Vec<u8>, Option<Plan>)> {
     match case.fault {
         Fault::BcfRecordCut => {
             let raw = gen::vcf_to_bcf(&vcf).ok()?;
-            let offs = bcf_record_offsets(&raw);
+            let offs = gen::bcf_record_offsets(&raw);
             let start = *offs.get(i)?;
             let end = offs.get(i + 1).copied().unwrap_or(raw.len());
             let cut = start + 1 + (i * 5) % (end - start - 1).max(1);
@@ -595,7 +578,7 @@ fn build_l2_input(case: &Case, i: usize) -> Option<(Vec<u8>, Option<Plan>)> {
                 (vcf.clone(), l)
             } else {
                 let raw = gen::vcf_to_bcf(&vcf).ok()?;
-                let offs = bcf_record_offsets(&raw);
+                let offs = gen::bcf_record_offsets(&raw);
                 // one block per record (header in the first block)
                 let mut blocks = vec![];
                 let mut prev = 0;
@@ -638,7 +621,7 @@ fn build_l2_input(case: &Case, i: usize) -> Option<(Vec<u8>, Option<Plan>)> {
             // proportional inside the single BGZF block otherwise
             let off = match case.container {
                 Container::Vcf => cs2.vcf_record_offsets()[i],
-                Container::BcfRaw => *bcf_record_offsets(&bytes).get(i)?,
+                Container::BcfRaw => *gen::bcf_record_offsets(&bytes).get(i)?,
                 _ => (bytes.len() * (i + 1)) / (cs2.recs.len() + 2),
             };
             let plan = Plan {
